@@ -173,6 +173,28 @@ def check_graph(case):
                 if b.n_automorphisms != n_want or {frozenset(o) for o in b.orbits} != orb_want:
                     fails.append(Fail("sparse_annotation", f"{sname}: {b.n_automorphisms} automorphisms, orbits {sorted(map(sorted, b.orbits))}", f"{n_want}, {sorted(map(sorted, orb_want))} (as with every default written out)", key_extra=sname))
                     break
+        if pi <= 1:
+            # the same labels written with other Python types of equal value (1 / 1.0, 0 / 0.0, False / 0) on alternating atoms and bonds
+            T = G.copy()
+            for k, v in enumerate(sorted(T.nodes)):
+                if k % 2:
+                    T.nodes[v]["charge"] = float(T.nodes[v]["charge"])
+                    T.nodes[v]["aromatic"] = int(T.nodes[v]["aromatic"])
+                    T.nodes[v]["hcount"] = float(T.nodes[v]["hcount"])
+            for k, (u, v) in enumerate(sorted(T.edges)):
+                if k % 2 == 0:
+                    T[u][v]["order"] = int(T[u][v]["order"])
+            bt = Automorphism(T)
+            ncalls += 1
+            if bt.n_automorphisms != n_want or {frozenset(o) for o in bt.orbits} != orb_want:
+                fails.append(Fail("value_equal_labels", f"exact: {bt.n_automorphisms} automorphisms", f"{n_want} (labels of equal value and other type)", key_extra="exact"))
+            for cfgname, kw, nodekey in (("default", {}, nk), ("reactor", dict(node_attrs=["element", "charge", "aromatic", "hcount"], edge_attrs=["order"]), nk_full)):
+                eo = [frozenset(o) for o in AutoEst(T, **kw).fit().orbits]
+                ncalls += 1
+                idx = {v: i for i, o in enumerate(eo) for v in o}
+                _, orb_cfg = exact(G, nodekey)
+                if sorted(idx) != sorted(G.nodes) or [o for o in orb_cfg if len({idx[v] for v in o}) > 1]:
+                    fails.append(Fail("value_equal_labels", f"estimate {cfgname}: {sorted(map(sorted, eo))}", f"coarsening of {sorted(map(sorted, orb_cfg))}", key_extra=cfgname))
         if pi == 0:
             e2 = estimate_automorphism_groups(G)
             if {frozenset(o) for o in e2.orbits} != {frozenset(o) for o in AutoEst(G).fit().orbits}:
